@@ -144,32 +144,36 @@ def wheel(k, n_side=3, n_spoke=3, n_border=3, rot=0.2, bulge=0.0):
     return s
 
 
-def star_pendant(n_spoke=3, rot=0.2, bulge=0.0):
-    """T3 plus a pendant cell glued to the middle of border b0: the pendant touches no internal interface."""
+def star_pendant(n_spoke=3, rot=0.2, bulge=0.0, pendants=1):
+    """T3 plus pendant cells glued to the middle of border lines b0 (b1, ...): a pendant touches no internal interface."""
     s = star(3, n_spoke=n_spoke, n_border=2, rot=rot, bulge=bulge)
-    s.name = "T3+pendant"
-    (x0, y0), (xm, ym) = s.points["P0"], s.points["M0"]
-    s.points["A"] = (x0 + 0.4 * (xm - x0), y0 + 0.4 * (ym - y0))
-    s.points["B"] = (x0 + 0.7 * (xm - x0), y0 + 0.7 * (ym - y0))
-    nx, ny = (ym - y0), -(xm - x0)
-    s.points["X"] = (s.points["A"][0] + 0.5 * nx, s.points["A"][1] + 0.5 * ny)
-    s.points["Y"] = (s.points["B"][0] + 0.5 * nx, s.points["B"][1] + 0.5 * ny)
-    old = s.lines.pop("b0")          # P0, M0, P1
-    s.lines["b0a"] = ["P0", "A"]
-    s.lines["b0m"] = ["A", "B"]
-    s.lines["b0b"] = ["B", "M0", "P1"]
-    s.lines["pm"] = ["A", "X", "Y", "B"]
-    cells = []
-    for cn, path in s.cells:
-        newp = []
-        for ln, d in path:
-            if ln == "b0":
-                newp += [("b0a", 1), ("b0m", 1), ("b0b", 1)] if d > 0 else [("b0b", -1), ("b0m", -1), ("b0a", -1)]
-            else:
-                newp.append((ln, d))
-        cells.append((cn, newp))
-    cells.append(("pend", [("pm", 1), ("b0m", -1)]))
-    s.cells = cells
+    s.name = "T3+pendant" if pendants == 1 else f"T3+{pendants}pendants"
+    for k in range(pendants):
+        sfx = "" if k == 0 else str(k)
+        (x0, y0), (xm, ym) = s.points[f"P{k}"], s.points[f"M{k}"]
+        A, B, X, Y = "A" + sfx, "B" + sfx, "X" + sfx, "Y" + sfx
+        s.points[A] = (x0 + 0.4 * (xm - x0), y0 + 0.4 * (ym - y0))
+        s.points[B] = (x0 + 0.7 * (xm - x0), y0 + 0.7 * (ym - y0))
+        nx, ny = (ym - y0), -(xm - x0)
+        s.points[X] = (s.points[A][0] + 0.5 * nx, s.points[A][1] + 0.5 * ny)
+        s.points[Y] = (s.points[B][0] + 0.5 * nx, s.points[B][1] + 0.5 * ny)
+        bl = f"b{k}"
+        s.lines.pop(bl)          # Pk, Mk, Pk+1
+        s.lines[bl + "a"] = [f"P{k}", A]
+        s.lines[bl + "m"] = [A, B]
+        s.lines[bl + "b"] = [B, f"M{k}", f"P{(k + 1) % 3}"]
+        s.lines["pm" + sfx] = [A, X, Y, B]
+        cells = []
+        for cn, path in s.cells:
+            newp = []
+            for ln, d in path:
+                if ln == bl:
+                    newp += [(bl + "a", 1), (bl + "m", 1), (bl + "b", 1)] if d > 0 else [(bl + "b", -1), (bl + "m", -1), (bl + "a", -1)]
+                else:
+                    newp.append((ln, d))
+            cells.append((cn, newp))
+        cells.append(("pend" + sfx, [("pm" + sfx, 1), (bl + "m", -1)]))
+        s.cells = cells
     return s
 
 
